@@ -39,9 +39,9 @@ atexit.register(shutil.rmtree, _TMP, True)
 
 PROPS = ("C01", "C02", "C03", "C04", "C05")
 QUICK_RUNS = {"C01": 96, "C02": 96, "C03": 80, "C04": 112, "C05": 96}
-THOROUGH_RUNS = {"C01": 1600, "C02": 1600, "C03": 1200, "C04": 1600, "C05": 1600}
+THOROUGH_RUNS = {"C01": 800, "C02": 800, "C03": 640, "C04": 800, "C05": 800}
 QUICK_FLEET = {"C01": 6, "C03": 8, "C04": 4}
-THOROUGH_FLEET = {"C01": 60, "C03": 90, "C04": 40}
+THOROUGH_FLEET = {"C01": 32, "C03": 48, "C04": 24}
 
 
 def main(argv=None):
